@@ -128,6 +128,7 @@ def _mk_extractor(name):
                    "uninterpreted): one call of the engine, x handed over as given, the engine's result returned untouched.")
         file, qualname, prop = D, name, "C19"
         config = {"opaque_objects": True}
+        always_bounded = True       # what datetime computes for one element is outside the contract: compared with Python's datetime in every tier
 
         def setup(self, cx):
             x = sym_vector(cx, "x", kind="datetime")
@@ -165,6 +166,7 @@ class DtToString(Contract):
     """dt.to_string(x, format) = _pull_str(x, f) with f(y) = y.strftime(format)."""
     file, qualname, prop = D, "to_string", "C19"
     config = {"opaque_objects": True}
+    always_bounded = True           # strftime / strptime semantics and from_string as the inverse: bounded, every tier
 
     def setup(self, cx):
         x = sym_vector(cx, "x", kind="datetime")
@@ -209,6 +211,7 @@ def _mk_regex(name, has_repl, kwnames, missing):
                    f"({missing}) elsewhere; same length; result kind; the input is not written.")
         file, qualname, prop = R, name, "C19"
         config = {"opaque_objects": True}
+        always_bounded = True       # agreement with Python's re on concrete strings and patterns: bounded, every tier
 
         def setup(self, cx):
             x = sym_string_vector(cx, "string")
@@ -284,6 +287,41 @@ def _mk_proxy(cls_name, module_file, bind):
                     cx.prove(f"{cls_name}.{a} binds exactly the vector (keyword string)", not x.args and list(x.kwargs) == ["string"] and x.kwargs["string"] is v)
     P.__name__ = "Proxy_" + cls_name
     return P
+
+
+@register
+class StrProxyContract(Contract):
+    """Vector.str proxy: after the real StrProxy.__init__ has run, every attribute is the as_vector wrapper around
+    functools.partial(numpy.strings.<SAME NAME>, vector): a call through the proxy is the NumPy string function of that name applied
+    to the vector and the caller's arguments, returned as a Vector."""
+    file, qualname, prop = "dataiter/vector.py", "StrProxy.__init__", "C19"
+
+    def setup(self, cx):
+        v = sym_vector(cx, "vector")
+        it = cx.it
+        mod = it.repo_module("dataiter/vector.py")
+        cls = it.class_obj(mod.classes["StrProxy"])
+        from pyvc.interp import Instance
+        obj = Instance(cx.ctx, cls)
+        return {"self": obj, "args": [v], "v": v, "obj": obj}
+
+    def ensures(self, cx, result):
+        from pyvc.interp import Closure
+        from pyvc.models_np import NpStringsFn
+        obj, v = cx.inputs["obj"], cx.inputs["v"]
+        attrs = {a: x for a, x in obj.attrs.items() if not a.startswith("_")}
+        cx.prove("the proxy offers the NumPy string functions", len(attrs) >= 40)
+        for a, x in sorted(attrs.items()):
+            inner = None
+            if isinstance(x, Closure):
+                try:
+                    inner = x.env.lookup("function")
+                except Exception:
+                    inner = None
+            ok = isinstance(inner, M.Partial) and isinstance(inner.func, NpStringsFn) and inner.func.name == a
+            cx.prove(f"StrProxy.{a} wraps numpy.strings.{a}", ok)
+            if ok:
+                cx.prove(f"StrProxy.{a} binds exactly the vector", len(inner.args) == 1 and inner.args[0] is v and not inner.kwargs)
 
 
 _mk_proxy("DtProxy", "dataiter/dt.py", "positional")
